@@ -268,7 +268,7 @@ def roleName : Role → Bytes
   `{{ range .Messages }}/{{ else }}`; expressions: `.Field`, `$.Field`, string literals,
   `eq ne not and or`.  Anything else makes the driver mark the template opaque. -/
 
-inductive Fld | system | prompt | response | messages | role | content | other
+inductive Fld | system | prompt | response | messages | role | content | tools | other
   deriving DecidableEq, Repr
 
 inductive Expr
@@ -285,7 +285,16 @@ inductive Node
   | range (c : Expr) (t : List Node) (hasElse : Bool) (e : List Node)
   deriving Repr
 
+/-- `tools j ne`: the request's `api.Tools` — printed through its `String()` method (`j` = the JSON
+    the driver obtained from the real method; `null` for no tools), true iff non-empty -/
 inductive Val | str (b : Bytes) | bool (b : Bool) | noValue | msgs (l : List RMsg)
+  | tools (json : Bytes) (nonEmpty : Bool)
+
+/-- the `Tools` of `template.Values` as far as templates of the subset can see them -/
+structure ToolsV where
+  json : Bytes := [110, 117, 108, 108]      -- "null"
+  nonEmpty : Bool := false
+  deriving DecidableEq, Repr
 
 inductive XErr
   | exec          -- `Template.Execute` returns an error
@@ -304,6 +313,7 @@ structure Root where
   prompt : Bytes
   response : Bytes
   msgs : List RMsg
+  tools : ToolsV := {}
 
 /-- map lookup with `missingkey=zero` on a `map[string]any`: a missing key is `<no value>` -/
 def Root.get (r : Root) : Fld → Val
@@ -311,6 +321,7 @@ def Root.get (r : Root) : Fld → Val
   | .response => .str r.response
   | .prompt => if r.legacy then .str r.prompt else .noValue
   | .messages => if r.legacy then .noValue else .msgs r.msgs
+  | .tools => if r.legacy then .noValue else .tools r.tools.json r.tools.nonEmpty
   | _ => .noValue
 
 def truthy : Val → Bool
@@ -318,6 +329,7 @@ def truthy : Val → Bool
   | .bool b => b
   | .noValue => false
   | .msgs l => !l.isEmpty
+  | .tools _ ne => ne
 
 def evalField (root : Root) (dot : Option RMsg) (f : Fld) : Except XErr Val :=
   match dot with
@@ -366,6 +378,7 @@ def printVal : Val → XOut
   | .bool b => .ok (if b then bTrue else bFalse)
   | .noValue => .ok bNoValue
   | .msgs _ => .err .unsupported
+  | .tools j _ => .ok j
 
 def XOut.append : XOut → XOut → XOut
   | .ok a, .ok b => .ok (a ++ b)
@@ -494,7 +507,7 @@ structure Legacy where
   resp : Bytes
   out : XOut
 
-def legacyRoot (s p r : Bytes) : Root := ⟨true, s, p, r, []⟩
+def legacyRoot (s p r : Bytes) : Root := ⟨true, s, p, r, [], {}⟩
 
 def legacyFlush (t : List Node) (st : Legacy) : Legacy :=
   ⟨[], [], [], st.out.append (execList (legacyRoot st.sys st.prompt st.resp) t none)⟩
@@ -528,11 +541,12 @@ structure TVar where
   /-- `deleteNode` else-list repair (F4c) -/
   efix : Bool
 
-/-- `Template.Execute(w, Values{Messages: msgs})` for a parsed tree `t` -/
-def execute (tv : TVar) (t : List Node) (msgs : List RMsg) : XOut :=
+/-- `Template.Execute(w, Values{Messages: msgs, Tools: tools})` for a parsed tree `t` (the legacy
+    path does not pass the tools on) -/
+def execute (tv : TVar) (t : List Node) (msgs : List RMsg) (tools : ToolsV := {}) : XOut :=
   let (sys, coll) := collate msgs
   if nodesMention .messages t then
-    execList ⟨false, sys, [], [], coll⟩ t none
+    execList ⟨false, sys, [], [], coll, tools⟩ t none
   else
     let st := coll.foldl (legacyStep tv.lmode t) ⟨[], [], [], .ok []⟩
     match st.out with
@@ -561,9 +575,10 @@ def costOfRender (rend : List Msg → Nat) (msgs : List Msg) (i : Nat) : Nat :=
 
 /-! ### chatPrompt with the template layer inside the model -/
 
-/-- what iteration `i` renders -/
-def renderAt (tv : TVar) (t : List Node) (msgs : List Msg) (i : Nat) : XOut :=
-  execute tv t ((systemsBefore msgs i ++ msgs.drop i).map toRMsg)
+/-- what iteration `i` renders: `Values{Messages: system(i) ++ msgs[i:], Tools: tools}` — the tools of
+    the request are part of EVERY candidate, exactly as they are part of the final prompt -/
+def renderAt (tv : TVar) (t : List Node) (msgs : List Msg) (tools : ToolsV) (i : Nat) : XOut :=
+  execute tv t ((systemsBefore msgs i ++ msgs.drop i).map toRMsg) tools
 
 inductive OutcomeT
   | panicEmpty
@@ -576,27 +591,32 @@ inductive OutcomeT
   | ok (evals n : Nat) (system retained : List Msg) (images : List ImgOut) (prompt : Bytes)
   deriving DecidableEq, Repr
 
-/-- `chatPrompt` for a parsed template `t` and tokenizer `mode`: the generic `chatPrompt` with
-    `cost`/`bad` obtained by executing the template, followed by the final `Execute`.
-    `tokFail = some i`: the tokenizer fails when asked to measure `system(i) ++ msgs[i:]`. -/
-def chatPromptT (cfg : Cfg) (tv : TVar) (t : List Node) (mode : Nat) (msgs : List Msg)
-    (tokFail : Option Nat := none) : OutcomeT :=
-  let cost := fun i => match renderAt tv t msgs i with
-    | .ok b => tokenCount mode b
-    | .err _ => 0
-  let bad := fun i => (match renderAt tv t msgs i with
+/-- the cost function chatPrompt really uses: tokens of the rendered candidate -/
+def tcost (tv : TVar) (t : List Node) (mode : Nat) (msgs : List Msg) (tools : ToolsV) (i : Nat) : Nat :=
+  match renderAt tv t msgs tools i with
+  | .ok b => tokenCount mode b
+  | .err _ => 0
+
+def tbad (tv : TVar) (t : List Node) (msgs : List Msg) (tools : ToolsV) (tokFail : Option Nat) (i : Nat) : Bool :=
+  (match renderAt tv t msgs tools i with
     | .ok _ => false
     | .err _ => true) || tokFail == some i
-  match chatPrompt cfg cost bad msgs with
+
+/-- `chatPrompt` for a parsed template `t`, tokenizer `mode` and the request's `tools`: the generic
+    `chatPrompt` with `cost`/`bad` obtained by executing the template, followed by the final `Execute`.
+    `tokFail = some i`: the tokenizer fails when asked to measure `system(i) ++ msgs[i:]`. -/
+def chatPromptT (cfg : Cfg) (tv : TVar) (t : List Node) (mode : Nat) (msgs : List Msg)
+    (tokFail : Option Nat := none) (tools : ToolsV := {}) : OutcomeT :=
+  match chatPrompt cfg (tcost tv t mode msgs tools) (tbad tv t msgs tools tokFail) msgs with
   | .panicEmpty => .panicEmpty
   | .errTooMany => .errTooMany
   | .errPreprocess => .errPreprocess
   | .execFail i =>
-    match renderAt tv t msgs i with
+    match renderAt tv t msgs tools i with
     | .err e => .tmplErr e
     | .ok _ => .tokErr
   | .ok q n sys ret imgs =>
-    match execute tv t ((sys ++ ret).map toRMsg) with
+    match execute tv t ((sys ++ ret).map toRMsg) tools with
     | .err e => .tmplErr e
     | .ok p => .ok q n sys ret imgs p
 
@@ -630,10 +650,10 @@ def runnerNumCtx (numCtx : Int) (numParallel : Nat) : Int :=
     code under test; here so that the difference can be stated). -/
 def chatHandler (fixed useRunnerOpts : Bool) (tv : TVar) (t : List Node) (dflt : Int)
     (modelParam reqOpt : Option Int) (numParallel : Nat)
-    (modelMsgs : List Msg) (modelSystem : Bytes) (req : List Msg) : OutcomeT :=
+    (modelMsgs : List Msg) (modelSystem : Bytes) (req : List Msg) (tools : ToolsV := {}) : OutcomeT :=
   let lim := requestNumCtx dflt modelParam reqOpt
   let lim := if useRunnerOpts then runnerNumCtx lim numParallel else lim
-  chatPromptT ⟨fixed, false, 0, lim⟩ tv t 0 (handlerMsgs modelMsgs modelSystem req)
+  chatPromptT ⟨fixed, false, 0, lim⟩ tv t 0 (handlerMsgs modelMsgs modelSystem req) none tools
 
 /-- the tags of a rendered content, in order (runner: `regexp \[img-(\d+)\]`) -/
 def tagsOf (c : List Piece) : List Nat :=
